@@ -57,6 +57,17 @@ Theorem C12_error_local_refuted : forall il id,
   /\ parse_bytes il id (txt ("BO_ 1 M: 8 N" ++ LF ++ "$" ++ LF)) = Err (at_ 2 1 13) ESyntax [f11_message].
 Proof. exact (fun il id => conj (f11_old il id) (f11_fixed il id)). Qed.
 
+(** KNOWN FINDING C12-lookahead-scanner-error-drops-previous-definition (known_findings.json): the side
+    condition of C12_error_local_partial cannot be dropped. The complete message "BO_ 1 M: 8 N" followed
+    by a NUL byte at the start of the next line: the scanner reports the NUL while the message's signal
+    loop looks one token ahead, so the error (positioned at the NUL, inside the corrupted part) comes
+    with NO definition reported, although [f11_message] precedes the corruption (compare
+    C12_error_local_refuted, where the legal character '$' in the same place reports the message). *)
+Theorem C12_error_local_lookahead_refuted : forall il id,
+  parse_bytes il id (txt ("BO_ 1 M: 8 N" ++ LF) ++ [0]) = Err (at_ 2 1 13) EScanNul []
+  /\ parse_bytes_old il id (txt ("BO_ 1 M: 8 N" ++ LF) ++ [0]) = Err (at_ 2 1 13) EScanNul [].
+Proof. exact lookahead_drops_message. Qed.
+
 (** non-vacuity of the locality hypotheses: ds1 = [BS_:], c = "CM_ $" (identifier CM_, then a space) *)
 Example C12_error_local_nonvacuous : forall il id,
   parse_bytes il id (print [SBitTiming None] ++ [67; 77; 95; 32; 36])
